@@ -416,12 +416,18 @@ package stun
 //@   ensures len(result) == len(buf) + 20
 //@   ensures (region(result) == region(buf) && off(result) == off(buf) && len(buf) + 20 <= cap(buf)) || fresh(result)
 //@   ensures forall(i, 0, len(buf), result[i] == old(buf[i]))
-//@   ensures forall(i, 0, 20, result[len(buf)+i] == old(hmacsha1(key, message, i)))
+//@   ensures forall(i, 0, 20, result[len(buf)+i] == macbyte(old(hmacsha1(key, message)), i))
 
 //@ func (*Message).WriteLength
 //@   transparent
 //@ func (*Message).grow
 //@   transparent
+
+// MIValid(msg, key): RFC 5389 section 15.4 - the first MESSAGE-INTEGRITY value is 20 bytes and equals HMAC-SHA1(key, the
+// message bytes before that attribute, with the header length rewritten to end right after that attribute).
+//@ define MIStart(msg) = start(msg.Raw, First(msg.Attributes, 8))
+//@ define MIValid(msg, key) = len(AttrVal(msg, 8)) == 20
+//@   | && forall(j, 0, 20, AttrVal(msg, 8)[j] == macbyte(hmacsha1(key, setbe16(msg.Raw[:MIStart(msg)], 2, MIStart(msg) + 4)), j))
 
 //@ func MessageIntegrity.Check
 //@   safety C07 C04
@@ -431,11 +437,19 @@ package stun
 //@   allocates
 //@   ensures msg.Length == old(msg.Length) && sameslice(msg.Raw, old(msg.Raw))
 //@   ensures forall(i, 0, len(msg.Raw), msg.Raw[i] == old(msg.Raw[i]))
+//@   props C04
+//@   ensures !old(Has(msg, 8)) ==> result != nil
+//@   ensures old(Has(msg, 8)) ==> (result == nil <==> old(MIValid(msg, i)))
+//@   props C07
 //@   loop 0
 //@     invariant -1 <= rangeindex && rangeindex < len(msg.Attributes)
 //@     invariant afterIntegrity <==> First(msg.Attributes, 8) <= rangeindex
 //@     invariant sizeReduced == ite(afterIntegrity, start(msg.Raw, rangeindex+1) - start(msg.Raw, First(msg.Attributes, 8)+1), 0)
 //@     decreases len(msg.Attributes) - rangeindex
+
+// FPValid(m): RFC 5389 section 15.5 - the first FINGERPRINT value is 4 bytes and equals CRC-32 of everything before the
+// last 8 bytes of the raw message, XOR 0x5354554e.
+//@ define FPValid(m) = len(AttrVal(m, 0x8028)) == 4 && be32(AttrVal(m, 0x8028), 0) == xor32(crc32(m.Raw[:len(m.Raw) - 8]), 0x5354554e)
 
 //@ func FingerprintAttr.Check
 //@   safety C07 C05
@@ -443,6 +457,9 @@ package stun
 //@   requires m != nil && DecodedViews(m)
 //@   pure
 //@   allocates
+//@   props C05
+//@   ensures !Has(m, 0x8028) ==> result != nil
+//@   ensures Has(m, 0x8028) ==> (result == nil <==> FPValid(m))
 
 // ---- building (C03, C08, C09) ----
 
@@ -800,3 +817,28 @@ package stun
 //@     invariant -1 <= rangeindex && rangeindex + 1 <= len(a) && len(v) == 2 * (rangeindex + 1) && fresh(v)
 //@     invariant forall(k, 0, rangeindex + 1, v[2*k] == a[k] / 256 && v[2*k + 1] == a[k] % 256)
 //@     decreases len(a) - rangeindex
+
+// ---- signing (C04, C05) ----
+
+//@ func FingerprintAttr.AddTo
+//@   safety C05 C03
+//@   props C05 C03 C08
+//@   requires m != nil && len(m.Raw) == 20 + m.Length && Fits(m, 4)
+//@   assigns m.Raw, m.Length, m.Attributes, mem(m.Raw), mem(m.Attributes)
+//@   allocates
+//@   ensures result == nil && AppendedHdr(m, 0x8028, 4)
+//@   ensures be32(m.Raw, len(m.Raw) - 4) == xor32(crc32(m.Raw[:len(m.Raw) - 8]), 0x5354554e)
+
+//@ func MessageIntegrity.AddTo
+//@   safety C04 C03 C09
+//@   props C04 C03 C09 C08
+//@   requires msg != nil && len(msg.Raw) == 20 + msg.Length && Fits(msg, 20) && region(i) != region(msg.Raw)
+//@   assigns msg.Raw, msg.Length, msg.Attributes, mem(msg.Raw), mem(msg.Attributes)
+//@   allocates
+//@   ensures result == nil <==> !old(Has(msg, 0x8028))
+//@   ensures result != nil ==> Unchanged(msg)
+//@   ensures result == nil ==> AppendedHdr(msg, 0x0008, 20)
+//@   ensures result == nil ==> forall(j, 0, 20, NewValue(msg, j) == macbyte(hmacsha1(old(i), msg.Raw[:len(msg.Raw) - 24]), j))
+//@   loop 0
+//@     invariant -1 <= rangeindex && forall(k, 0, rangeindex+1, msg.Attributes[k].Type != 0x8028)
+//@     decreases len(msg.Attributes) - rangeindex
